@@ -832,12 +832,108 @@ pub fn c06_case(rng: &mut Rng, st: &mut Stats) -> CaseOutcome {
     }
 }
 
+/// C06 over general patterns: random multi-mode configurations (overlapping patterns, lookaheads,
+/// shared token types), the expected token at every step computed by the tokenizer rule of the
+/// reference semantics on the patterns of the MODEL's current mode.
+pub fn c06_general_case(rng: &mut Rng, st: &mut Stats) -> CaseOutcome {
+    use crate::refsem::{best, candidates, LaStats, RefInput, MAX_DENOT_CHARS};
+    let mut p = GenParams::default();
+    p.max_nodes = 8;
+    let la = if rng.chance(1, 3) { 25 } else { 0 };
+    let cfg = gen_multi_mode(rng, &p, la, 4);
+    if !guard_roundtrip(&cfg) {
+        return CaseOutcome::Skipped;
+    }
+    let res_refs = cfg.all_res();
+    let input = gen_input(rng, &res_refs, &p.letters, 40);
+    let inp = RefInput::new(&input);
+    if inp.len() > MAX_DENOT_CHARS {
+        return CaseOutcome::Skipped;
+    }
+    let set_mode_at: Vec<(usize, usize)> = (0..rng.below(3)).map(|_| (rng.below(12), rng.below(cfg.modes.len()))).collect();
+    let case = || json!({"kind": "c06_general", "cfg": cfg, "patterns": cfg.describe(), "input": input, "set_mode_at_token": set_mode_at});
+    let scanner = match build_any(&cfg, rng.chance(1, 4)) {
+        Ok(s) => s,
+        Err(e) => return CaseOutcome::Violated(Violation::new(e, case())),
+    };
+    let r = sut(|| -> Result<(), String> {
+        let mut it = scanner.find_iter(&input);
+        let mut pos = 0usize;
+        let mut mode = 0usize;
+        let mut k = 0usize;
+        let mut la_stats = LaStats::default();
+        loop {
+            for (at, m) in &set_mode_at {
+                if *at == k {
+                    it.set_mode(*m);
+                    mode = *m;
+                    st.count("general_set_mode_mid_stream");
+                }
+            }
+            let got = it.next().map(Tok::from);
+            // reference: next position with a candidate in the model's mode
+            let pats = &cfg.modes[mode].pats;
+            let mut q = pos;
+            let mut expected = None;
+            while q < inp.len() {
+                let c = candidates(pats, &inp, q, &mut la_stats);
+                if !c.is_empty() {
+                    expected = Some((q, best(&c)));
+                    break;
+                }
+                q += 1;
+            }
+            match (&got, &expected) {
+                (None, None) => break,
+                (Some(t), None) => return Err(format!("token #{} {:?} reported in mode {} although no pattern of that mode matches from offset {} on", k, t, mode, inp.off[pos])),
+                (None, Some((q, b))) => return Err(format!("no token #{} although pattern #{} of mode {} matches at offset {}", k, b[0].pat, mode, inp.off[*q])),
+                (Some(t), Some((q, b))) => {
+                    let ok = t.start == inp.off[*q] && b.iter().any(|c| t.end == inp.off[c.end] && t.tt == pats[c.pat].tt);
+                    if !ok {
+                        return Err(format!(
+                            "token #{} is {:?}; the patterns of mode {} ({:?}) give type {} at {}..{}",
+                            k, t, mode, cfg.modes[mode].name, pats[b[0].pat].tt, inp.off[*q], inp.off[b[0].end]
+                        ));
+                    }
+                    st.count("general_tokens_checked");
+                    if let Some(m) = transition_of(&cfg.modes[mode], t.tt) {
+                        if m != mode {
+                            st.count("general_switch_to_other_mode");
+                        }
+                        mode = m;
+                    }
+                    pos = inp.char_index(t.end).unwrap();
+                }
+            }
+            if it.current_mode() != mode {
+                return Err(format!("after token #{} current_mode() = {}, expected {}", k, it.current_mode(), mode));
+            }
+            k += 1;
+            if k > inp.len() + 2 {
+                return Err("no progress".to_string());
+            }
+        }
+        Ok(())
+    });
+    st.count("general_histories");
+    match r {
+        Ok(Ok(())) => {
+            st.nontrivial(hash_of(&(&cfg, &input, &set_mode_at)));
+            CaseOutcome::Ok
+        }
+        Ok(Err(e)) => CaseOutcome::Violated(Violation::new(e, case())),
+        Err(pm) => CaseOutcome::Violated(Violation::new(format!("panic: {}", pm), case())),
+    }
+}
+
 pub fn c06(tier: Tier) -> i32 {
     let ctx = Ctx::new("C06", tier, "exploration");
     let n = ctx.scale(30_000, 2_000_000);
-    let res = run_cases(&ctx, 1, n, |rng, _i, st| c06_case(rng, st));
+    let mut res = run_cases(&ctx, 1, n, |rng, _i, st| c06_case(rng, st));
+    let n2 = ctx.scale(15_000, 1_000_000);
+    res.merge(run_cases(&ctx, 2, n2, |rng, _i, st| c06_general_case(rng, st)));
     let report = Report::new(
-        "random mode graphs (1-4 modes; per mode 1-5 keyword patterns with pairwise distinct first letters so that the expected stream is computable by a 10-line function; token types drawn from a pool shared between modes, incl. values above 65535; 0-3 sorted transitions per mode to existing modes incl. self-loops and entries for token types the mode never produces), 1-3 iterations per scanner with Scanner::set_mode in between, histories of next / peek_n / set_mode / current_mode / mode_name on FindMatches and through WithPositions. Oracle: sequential model (position, mode); every token, every current_mode() reading after every call and every mode_name are compared. Distinct by hash of (configuration, plans).",
+        "stream 2: random multi-mode configurations over GENERAL patterns (overlapping languages, lookaheads, token types shared between modes, set_mode mid-stream): every token must be the one the tokenizer rule of the reference semantics gives for the patterns of the model's current mode, and current_mode() must follow the configured transitions. stream 1: random mode graphs (1-4 modes; per mode 1-5 keyword patterns with pairwise distinct first letters so that the expected stream is computable by a 10-line function; token types drawn from a pool shared between modes, incl. values above 65535; 0-3 sorted transitions per mode to existing modes incl. self-loops and entries for token types the mode never produces), 1-3 iterations per scanner with Scanner::set_mode in between, histories of next / peek_n / set_mode / current_mode / mode_name on FindMatches and through WithPositions. Oracle: sequential model (position, mode); every token, every current_mode() reading after every call and every mode_name are compared. Distinct by hash of (configuration, plans).",
     )
     .floor("switch_taken", 10_000)
     .floor("token_without_transition", 10_000)
@@ -847,7 +943,9 @@ pub fn c06(tier: Tier) -> i32 {
     .floor("transition_lookup_falls_between_entries", 1000)
     .floor("scanner_set_mode_before_find_iter", 1000)
     .floor("iterations_through_with_positions", 1000)
-    .floor("cached_sibling_with_other_transitions_built_first", 1000);
+    .floor("cached_sibling_with_other_transitions_built_first", 1000)
+    .floor("general_tokens_checked", 20_000)
+    .floor("general_switch_to_other_mode", 2_000);
     finish(&ctx, res, report)
 }
 
